@@ -800,6 +800,9 @@ def _round_trip(mon, rng, Dr, w, m, fz, bal, to_pair, variant, removal, lo, up, 
         wb = (bal(w.t0), bal(w.t1))
         res = Dr.call_op(m.remove_liquidity, pos, liq, collect, rm_sqrt)
         mon.hit("remove_liquidity")
+        if not res.ok and label == "full-overasked" and type(res.exc).__name__ == "DemeterError":
+            mon.cls("live/remove/over-ask-refused")  # refusing is as good as capping: nothing beyond the holding is paid
+            return None
         if not res.ok:
             mon.violation("uniswap", "remove_liquidity", "raises", f"{type(res.exc).__name__}@{res.site}", f"{res.exc!r}; {label}; {ctx()}")
             return None
@@ -849,7 +852,13 @@ def _round_trip(mon, rng, Dr, w, m, fz, bal, to_pair, variant, removal, lo, up, 
         return g0, g1
 
     if removal == "full" or first["L"] == 0:
-        remove(None if rng.random() < 0.5 else first["L"], True, "full", (first["u0"], first["u1"]))
+        k = rng.random()
+        if k < 0.25 and first["L"] > 0:
+            # more liquidity asked for than the position holds (a figure from estimate_liquidity, or a stale one): the position
+            # can pay what it holds, i.e. exactly the deposit, and no more
+            remove(first["L"] * rng.choice([1, 2, 10]) + rng.choice([1, 7, first["L"]]), True, "full-overasked", (first["u0"], first["u1"]))
+        else:
+            remove(None if k < 0.6 else first["L"], True, "full", (first["u0"], first["u1"]))
     elif removal == "no-collect":
         got = remove(None, False, "no-collect", (first["u0"], first["u1"]))
         if got is not None and pos in m.positions:
